@@ -186,10 +186,17 @@ theorem filter_cover (nxt una : Seq) (l : List Transmit) (hc : Chain nxt l)
 
 /-! ## the send-side invariant -/
 
-/-- the states in which `segments()` segmentizes queued text -/
-def segmentizing : State → Bool
+/-- `segments()` may still turn queued text into data segments: the four open states, and the
+    closing states while the FIN waits for text that is still queued (`fin_pending`) -/
+def segmentizing (s : Tcb) : Bool :=
+  match s.state with
   | .SynSent | .SynReceived | .Established | .CloseWait => true
+  | .FinWait1 | .Closing | .LastAck => !s.outgoing.text.isEmpty
   | _ => false
+
+theorem segmentizing_congr {s s' : Tcb} (h1 : s'.state = s.state) (h2 : s'.outgoing.text = s.outgoing.text) :
+    segmentizing s' = segmentizing s := by
+  unfold segmentizing; rw [h1, h2]
 
 /-- 1 while our SYN is unacknowledged -/
 def synPending (s : Tcb) : Nat := if s.snd.una = s.snd.iss then 1 else 0
@@ -346,12 +353,12 @@ theorem segmentize_window (maxSeg : Nat) (fuel : Nat) (s : Tcb) (q : Nat)
 /-! ## the invariant is kept by every operation except `abort` -/
 
 /-- `SndInv` holds whenever the connection is in a state in which `segments()` segmentizes -/
-def SndOk (s : Tcb) : Prop := segmentizing s.state = true → SndInv s
+def SndOk (s : Tcb) : Prop := segmentizing s = true → SndInv s
 
 /-- one step keeps the invariant: a segmentizing state is only entered from a segmentizing
     state, and `SndInv` carries over -/
 def SndPres (s s' : Tcb) : Prop :=
-  segmentizing s'.state = true → segmentizing s.state = true ∧ (SndInv s → SndInv s')
+  segmentizing s' = true → segmentizing s = true ∧ (SndInv s → SndInv s')
 
 theorem SndPres.refl (s : Tcb) : SndPres s s := fun h => ⟨h, id⟩
 
@@ -362,13 +369,16 @@ theorem SndOk.step {s s' : Tcb} (h : SndOk s) (p : SndPres s s') : SndOk s' := f
   (p hs).2 (h (p hs).1)
 
 /-- the fields `SndInv` reads are unchanged and no segmentizing state is newly entered -/
-theorem sndPres_congr {s s' : Tcb} (hst : segmentizing s'.state = true → segmentizing s.state = true)
+theorem sndPres_congr {s s' : Tcb} (hst : segmentizing s' = true → segmentizing s = true)
     (h1 : s'.snd.una = s.snd.una) (h2 : s'.snd.nxt = s.snd.nxt) (h3 : s'.snd.iss = s.snd.iss)
     (h4 : s'.outgoing.retransmit = s.outgoing.retransmit) : SndPres s s' :=
   fun h => ⟨hst h, fun hi => hi.congr h1 h2 h3 h4⟩
 
+theorem segmentizing_enqueueBuilt (s : Tcb) (hd : Hdr) : segmentizing (s.enqueueBuilt hd) = segmentizing s :=
+  segmentizing_congr (state_enqueueBuilt s hd) (enqueueBuilt_frame s hd).2.2.2.2.2.2.1
+
 theorem sndPres_enqueueBuilt (s : Tcb) (hd : Hdr) : SndPres s (s.enqueueBuilt hd) := fun h =>
-  ⟨by rw [state_enqueueBuilt] at h; exact h, sndInv_enqueueBuilt s hd⟩
+  ⟨by rw [segmentizing_enqueueBuilt] at h; exact h, sndInv_enqueueBuilt s hd⟩
 
 /-- from an existence statement about a block's result to a statement about *the* result -/
 theorem of_exists {α : Type} {x : Except String (Tcb × α)} {P : Tcb → Prop}
@@ -378,20 +388,30 @@ theorem of_exists {α : Type} {x : Except String (Tcb × α)} {P : Tcb → Prop}
   cases e
   exact p
 
+theorem seg_of_synSent {s : Tcb} (h : s.state = .SynSent) : segmentizing s = true := by
+  unfold segmentizing; rw [h]
+theorem seg_of_synReceived {s : Tcb} (h : s.state = .SynReceived) : segmentizing s = true := by
+  unfold segmentizing; rw [h]
+theorem seg_of_established {s : Tcb} (h : s.state = .Established) : segmentizing s = true := by
+  unfold segmentizing; rw [h]
+theorem seg_of_closeWait {s : Tcb} (h : s.state = .CloseWait) : segmentizing s = true := by
+  unfold segmentizing; rw [h]
+
 theorem ackEstablished_pres (s : Tcb) (seg : Hdr) :
-    ∃ s' r, s.ackEstablishedProcessing seg = .ok (s', r) ∧ (SndInv s → SndInv s') ∧ s'.state = s.state := by
+    ∃ s' r, s.ackEstablishedProcessing seg = .ok (s', r) ∧ (SndInv s → SndInv s') ∧ s'.state = s.state ∧
+      s'.outgoing.text = s.outgoing.text := by
   unfold ackEstablishedProcessing
   split
-  · exact ⟨_, _, rfl, id, rfl⟩
+  · exact ⟨_, _, rfl, id, rfl, rfl⟩
   · split
     · rw [enqueue_eq]
-      exact ⟨_, _, rfl, sndInv_enqueueBuilt _ _, state_enqueueBuilt _ _⟩
+      exact ⟨_, _, rfl, sndInv_enqueueBuilt _ _, state_enqueueBuilt _ _, (enqueueBuilt_frame _ _).2.2.2.2.2.2.1⟩
     · rename_i hb
       have hb' : modBounded s.snd.una .Lt seg.ack .Leq s.snd.nxt = true := by simpa using hb
       dsimp only
       split
-      · exact ⟨_, _, rfl, fun hi => (sndInv_ack s seg.ack hi hb').congr rfl rfl rfl rfl, rfl⟩
-      · exact ⟨_, _, rfl, fun hi => sndInv_ack s seg.ack hi hb', rfl⟩
+      · exact ⟨_, _, rfl, fun hi => (sndInv_ack s seg.ack hi hb').congr rfl rfl rfl rfl, rfl, rfl⟩
+      · exact ⟨_, _, rfl, fun hi => sndInv_ack s seg.ack hi hb', rfl, rfl⟩
 
 theorem seqCheck_pres (s : Tcb) (seg : Hdr) (tl : Seq) (h : tl.toNat ≤ MAX_PAYLOAD) :
     ∃ s' r, seqCheck s seg tl = .ok (s', r) ∧ SndPres s s' := by
@@ -408,12 +428,13 @@ theorem seqCheck_pres (s : Tcb) (seg : Hdr) (tl : Seq) (h : tl.toNat ≤ MAX_PAY
 
 /-- reasoning principle for `afterAckEstablished`, send side -/
 theorem afterAck_pres (t : Tcb) (seg : Hdr) (k : Tcb → ProcessSegmentResult → B) (P : B → Prop)
-    (h : ∀ s1 r1, (SndInv t → SndInv s1) → s1.state = t.state → P (k s1 r1)) :
+    (h : ∀ s1 r1, (SndInv t → SndInv s1) → s1.state = t.state → s1.outgoing.text = t.outgoing.text →
+      P (k s1 r1)) :
     P (afterAckEstablished (t.ackEstablishedProcessing seg) k) := by
-  obtain ⟨s1, r1, h1, hs1, hst1⟩ := ackEstablished_pres t seg
+  obtain ⟨s1, r1, h1, hs1, hst1, htx1⟩ := ackEstablished_pres t seg
   unfold afterAckEstablished
   rw [h1]
-  exact h s1 r1 hs1 hst1
+  exact h s1 r1 hs1 hst1 htx1
 
 theorem ackBlock_pres (s : Tcb) (seg : Hdr) : ∃ s' r, ackBlock s seg = .ok (s', r) ∧ SndPres s s' := by
   unfold ackBlock
@@ -430,7 +451,7 @@ theorem ackBlock_pres (s : Tcb) (seg : Hdr) : ∃ s' r, ackBlock s seg = .ok (s'
       · split
         · rename_i hb
           split
-          · exact ⟨_, _, rfl, fun h => ⟨by rw [hst]; rfl, fun hi => sndInv_ack s seg.ack hi hb⟩⟩
+          · exact ⟨_, _, rfl, fun h => ⟨seg_of_synSent hst, fun hi => sndInv_ack s seg.ack hi hb⟩⟩
           · exact ⟨_, _, rfl, SndPres.refl _⟩
         · simp only [enqueueThen_eq]
           exact ⟨_, _, rfl, sndPres_enqueueBuilt _ _⟩
@@ -439,45 +460,36 @@ theorem ackBlock_pres (s : Tcb) (seg : Hdr) : ∃ s' r, ackBlock s seg = .ok (s'
       split
       · dsimp only
         refine afterAck_pres _ seg _ (fun x => ∃ s' r, x = .ok (s', r) ∧ SndPres s s') ?_
-        intro s1 r1 hs1 hst1
-        have hp : SndPres s s1 := fun _ => ⟨by rw [hst]; rfl, fun hi => hs1 (hi.congr rfl rfl rfl rfl)⟩
+        intro s1 r1 hs1 hst1 htx1
+        have hp : SndPres s s1 := fun _ => ⟨seg_of_synReceived hst, fun hi => hs1 (hi.congr rfl rfl rfl rfl)⟩
         split <;> exact ⟨_, _, rfl, hp⟩
       · simp only [enqueueThen_eq]
         exact ⟨_, _, rfl, sndPres_enqueueBuilt _ _⟩
     iterate 3
       · -- ESTABLISHED | FIN-WAIT-2 | CLOSE-WAIT
         refine afterAck_pres _ seg _ (fun x => ∃ s' r, x = .ok (s', r) ∧ SndPres s s') ?_
-        intro s1 r1 hs1 hst1
-        have hp : SndPres s s1 := fun h => ⟨by rw [hst1] at h; exact h, hs1⟩
+        intro s1 r1 hs1 hst1 htx1
+        have hp : SndPres s s1 := fun h => ⟨by rw [segmentizing_congr hst1 htx1] at h; exact h, hs1⟩
         split <;> exact ⟨_, _, rfl, hp⟩
-    · -- FIN-WAIT-1 (not segmentizing before or after)
-      rename_i hst
-      refine afterAck_pres _ seg _ (fun x => ∃ s' r, x = .ok (s', r) ∧ SndPres s s') ?_
-      intro s1 r1 hs1 hst1
-      dsimp only
-      split <;> split <;> refine ⟨_, _, rfl, fun h => ?_⟩ <;>
-        first
-        | (exfalso; rw [hst1, hst] at h; simp [segmentizing] at h)
-        | (exfalso; simp [segmentizing] at h)
-    · -- CLOSING
-      rename_i hst
-      refine afterAck_pres _ seg _ (fun x => ∃ s' r, x = .ok (s', r) ∧ SndPres s s') ?_
-      intro s1 r1 hs1 hst1
-      dsimp only
-      split <;> split <;> refine ⟨_, _, rfl, fun h => ?_⟩ <;>
-        first
-        | (exfalso; rw [hst1, hst] at h; simp [segmentizing] at h)
-        | (exfalso; simp [segmentizing] at h)
+    iterate 2
+      · -- FIN-WAIT-1 | CLOSING: the state moves on only when our FIN is acknowledged; FIN-WAIT-2 and
+        -- TIME-WAIT never segmentize
+        refine afterAck_pres _ seg _ (fun x => ∃ s' r, x = .ok (s', r) ∧ SndPres s s') ?_
+        intro s1 r1 hs1 hst1 htx1
+        have hp : SndPres s s1 := fun h => ⟨by rw [segmentizing_congr hst1 htx1] at h; exact h, hs1⟩
+        dsimp only
+        split <;> split <;> first
+          | exact ⟨_, _, rfl, hp⟩
+          | exact ⟨_, _, rfl, fun h => by simp [segmentizing] at h⟩
     · -- LAST-ACK
-      rename_i hst
-      dsimp only
-      split <;> refine ⟨_, _, rfl, fun h => ?_⟩ <;> (exfalso; simp [hst, segmentizing] at h)
+      refine afterAck_pres _ seg _ (fun x => ∃ s' r, x = .ok (s', r) ∧ SndPres s s') ?_
+      intro s1 r1 hs1 hst1 htx1
+      have hp : SndPres s s1 := fun h => ⟨by rw [segmentizing_congr hst1 htx1] at h; exact h, hs1⟩
+      split
+      · exact ⟨_, _, rfl, hp⟩
+      · split <;> exact ⟨_, _, rfl, hp⟩
     · -- TIME-WAIT
-      rename_i hst
-      simp only [enqueueThen_eq]
-      refine ⟨_, _, rfl, fun h => ?_⟩
-      exfalso
-      simp [state_enqueueBuilt, hst, segmentizing] at h
+      exact ⟨_, _, rfl, SndPres.refl _⟩
 
 theorem synBlock_pres (s : Tcb) (seg : Hdr) : ∃ s' r, synBlock s seg = .ok (s', r) ∧ SndPres s s' := by
   unfold synBlock
@@ -488,9 +500,9 @@ theorem synBlock_pres (s : Tcb) (seg : Hdr) : ∃ s' r, synBlock s seg = .ok (s'
       dsimp only
       split
       · simp only [enqueueThen_eq]
-        exact ⟨_, _, rfl, fun _ => ⟨by rw [hst]; rfl, fun hi => sndInv_enqueueBuilt _ _ (hi.congr rfl rfl rfl rfl)⟩⟩
+        exact ⟨_, _, rfl, fun _ => ⟨seg_of_synSent hst, fun hi => sndInv_enqueueBuilt _ _ (hi.congr rfl rfl rfl rfl)⟩⟩
       · simp only [enqueueThen_eq]
-        exact ⟨_, _, rfl, fun _ => ⟨by rw [hst]; rfl, fun hi => sndInv_enqueueBuilt _ _ (hi.congr rfl rfl rfl rfl)⟩⟩
+        exact ⟨_, _, rfl, fun _ => ⟨seg_of_synSent hst, fun hi => sndInv_enqueueBuilt _ _ (hi.congr rfl rfl rfl rfl)⟩⟩
     · simp only [enqueueThen_eq]
       exact ⟨_, _, rfl, sndPres_enqueueBuilt _ _⟩
 
@@ -508,7 +520,7 @@ theorem textBlock_pres (s : Tcb) (seg : Hdr) (text : List UInt8) (tl : Seq) (s' 
            | (simp at e; done)
            | (rw [enqueueThen_eq] at e
               cases e
-              exact fun h => ⟨by rw [state_enqueueBuilt] at h; exact h,
+              exact fun h => ⟨by rw [segmentizing_enqueueBuilt] at h; exact h,
                 fun hi => sndInv_enqueueBuilt _ _ (hi.congr rfl rfl rfl rfl)⟩))
 
 theorem finBlock_pres (s : Tcb) (seg : Hdr) (tl : Seq) :
@@ -526,7 +538,7 @@ theorem finBlock_pres (s : Tcb) (seg : Hdr) (tl : Seq) :
       split
       · split
         · rw [enqueue_eq]
-          refine ⟨_, rfl, fun h => ⟨by rw [state_enqueueBuilt] at h; exact h,
+          refine ⟨_, rfl, fun h => ⟨by rw [segmentizing_enqueueBuilt] at h; exact h,
             fun hi => sndInv_enqueueBuilt _ _ (hi.congr rfl rfl rfl rfl)⟩, by rw [state_enqueueBuilt]⟩
         · exact ⟨_, rfl, SndPres.refl _, rfl⟩
       · exact ⟨_, rfl, SndPres.refl _, rfl⟩
@@ -535,13 +547,22 @@ theorem finBlock_pres (s : Tcb) (seg : Hdr) (tl : Seq) :
     dsimp only
     -- the state transitions of the FIN block never enter a segmentizing state from outside
     have mk : ∀ s2 : Tcb, s2.snd = s1.snd → s2.outgoing = s1.outgoing →
-        (segmentizing s2.state = true → segmentizing s1.state = true) → SndPres s s2 := fun s2 a b c =>
+        (segmentizing s2 = true → segmentizing s1 = true) → SndPres s s2 := fun s2 a b c =>
       hp1.trans (sndPres_congr c (by rw [a]) (by rw [a]) (by rw [a]) (by rw [b]))
     split
     all_goals first
       | exact ⟨_, _, rfl, hp1⟩
-      | exact ⟨_, _, rfl, mk _ rfl rfl (fun h => by first | exact h | (rename_i hs; rw [hs]; rfl) | (simp [segmentizing] at h))⟩
-      | (split <;> exact ⟨_, _, rfl, mk _ rfl rfl (fun h => by first | exact h | (simp [segmentizing] at h))⟩)
+      | exact ⟨_, _, rfl, mk _ rfl rfl (fun h => by
+          first
+            | exact h
+            | (rename_i hs; exact seg_of_synReceived hs)
+            | (rename_i hs; exact seg_of_established hs)
+            | (simp [segmentizing] at h))⟩
+      | (rename_i hs
+         split <;> exact ⟨_, _, rfl, mk _ rfl rfl (fun h => by
+          first
+            | (simp [segmentizing] at h; done)
+            | (simp only [segmentizing] at h ⊢; rw [hs]; exact h))⟩)
 
 /-- `process_segment` keeps the send-side invariant -/
 theorem processSegment_pres (s : Tcb) (segment : Segment) (hp : segment.text.length ≤ MAX_PAYLOAD)
@@ -635,6 +656,39 @@ theorem segmentArrives_pres (s : Tcb) (segment : Segment) (h : Wf s)
       (s' := { s with incoming.segments := LHeap.push segLe s.incoming.segments segment }) id rfl rfl rfl rfl).trans
       (drain_pres _ _ wf0 _ _ e)
 
+/-- with nothing queued the segmentization loop does nothing -/
+theorem segmentize_nil (maxSeg fuel : Nat) (s : Tcb) (q : Nat) (h : s.outgoing.text = []) :
+    segmentize maxSeg fuel s q = .ok s := by
+  cases fuel with
+  | zero => rfl
+  | succ n => unfold segmentize; simp [h]
+
+/-- `queue_fin` in a closing state: either the FIN is formed — the endpoint then never segmentizes
+    again — or nothing happens; what is appended to the retransmission queue carries no text -/
+theorem queueFin_pres (t t' : Tcb)
+    (hcl : t.state = .FinWait1 ∨ t.state = .Closing ∨ t.state = .LastAck) (e : t.queueFin = .ok t') :
+    SndPres t t' ∧ t'.state = t.state ∧
+      ∃ new, t'.outgoing.retransmit = t.outgoing.retransmit ++ new ∧ ∀ x ∈ new, x.segment.text = [] := by
+  unfold queueFin at e
+  split at e
+  · rename_i hempty
+    rw [enqueue_eq] at e
+    dsimp only at e
+    cases e
+    refine ⟨fun hseg => ?_, by simp only [state_enqueueBuilt], [Transmit.new ⟨t.finHdr.built, []⟩], ?_, ?_⟩
+    · exfalso
+      have htx := (enqueueBuilt_frame t t.finHdr.built).2.2.2.2.2.2.1
+      rcases hcl with h | h | h <;>
+        simp [segmentizing, state_enqueueBuilt, htx, h, hempty] at hseg
+    · unfold enqueueBuilt
+      rw [if_pos (by simp [finHdr, Hdr.built, Hdr.withFin, Hdr.withAck, Hdr.withWnd])]
+    · intro x hx
+      simp only [List.mem_singleton] at hx
+      subst hx
+      rfl
+  · cases e
+    exact ⟨SndPres.refl _, rfl, [], by simp, fun _ h => by simp at h⟩
+
 /-- `segments()`: every segment handed to the network is a retransmission of a queued segment,
     carries no text, or is new data inside the send window; the invariant is kept -/
 theorem segments_window (s : Tcb) (hok : SndOk s) (s' : Tcb) (out : List Segment)
@@ -648,11 +702,16 @@ theorem segments_window (s : Tcb) (hok : SndOk s) (s' : Tcb) (out : List Segment
   | ok s1 =>
     rw [h1] at e
     dsimp only at e
+    cases h2 : finIfPending s.finPending s1 with
+    | error err => rw [h2] at e; simp at e
+    | ok s2 =>
+    rw [h2] at e
+    dsimp only at e
     -- what the segmentization step did
     have key : ∃ new, s1.outgoing.retransmit = s.outgoing.retransmit ++ new ∧
-        (∀ t ∈ new, InSendWindow s t.segment) ∧ SndPres s s1 := by
+        (∀ t ∈ new, InSendWindow s t.segment) ∧ SndPres s s1 ∧ s1.state = s.state := by
       unfold segmentizeIfOpen at h1
-      by_cases hseg : segmentizing s.state = true
+      by_cases hseg : segmentizing s = true
       · have hinv : SndInv ({ s with outgoing.oneshot := [] } : Tcb) := (hok hseg).congr rfl rfl rfl rfl
         split at h1
         all_goals first
@@ -660,37 +719,64 @@ theorem segments_window (s : Tcb) (hok : SndOk s) (s' : Tcb) (out : List Segment
              · simp at h1
              · obtain ⟨new, r, w, inv, u, wn, i, st⟩ := segmentize_window _ _ _ _ rfl hinv s1 h1
                exact ⟨new, r, fun t ht => (inSendWindow_congr t.segment rfl rfl rfl).1 (w t ht),
-                 fun _ => ⟨hseg, fun _ => inv⟩⟩)
+                 fun _ => ⟨hseg, fun _ => inv⟩, st⟩)
           | (rename_i hne
              exfalso
              revert hseg
-             cases hs : s.state <;> simp [segmentizing] <;> simp_all)
-      · have : s1 = { s with outgoing.oneshot := [] } := by
-          revert hseg h1
-          cases hs : s.state <;> simp [segmentizing] <;> (intro h1; exact h1.symm)
+             cases hs : s.state <;> simp [segmentizing, hs] <;> simp_all)
+      · have hfalse : segmentizing s = false := by simpa using hseg
+        have : s1 = { s with outgoing.oneshot := [] } := by
+          split at h1
+          all_goals first
+            | (cases h1; rfl)
+            | (rename_i hs
+               have hs' : s.state = _ := hs
+               first
+               | (exfalso; simp [segmentizing, hs'] at hfalse; done)
+               | (have ht : s.outgoing.text = [] := by simpa [segmentizing, hs'] using hfalse
+                  split at h1
+                  · simp at h1
+                  · rw [segmentize_nil] at h1
+                    · cases h1; rfl
+                    · exact ht))
         subst this
-        exact ⟨[], by simp, fun _ h => by simp at h, sndPres_congr id rfl rfl rfl rfl⟩
-    obtain ⟨new, hr, hw, hp1⟩ := key
+        exact ⟨[], by simp, fun _ h => by simp at h, sndPres_congr id rfl rfl rfl rfl, rfl⟩
+    obtain ⟨new, hr, hw, hp1, hst1⟩ := key
+    -- the FIN that waited for the text
+    have key2 : ∃ new2, s2.outgoing.retransmit = s1.outgoing.retransmit ++ new2 ∧
+        (∀ t ∈ new2, t.segment.text = []) ∧ SndPres s1 s2 := by
+      unfold finIfPending at h2
+      split at h2
+      · rename_i hfp
+        have hcl : s1.state = .FinWait1 ∨ s1.state = .Closing ∨ s1.state = .LastAck := by
+          rw [hst1]
+          unfold finPending at hfp
+          cases hs : s.state <;> simp [hs] at hfp <;> simp
+        obtain ⟨p, _, new2, hr2, ht2⟩ := queueFin_pres s1 s2 hcl h2
+        exact ⟨new2, hr2, ht2, p⟩
+      · cases h2
+        exact ⟨[], by simp, fun _ h => by simp at h, SndPres.refl _⟩
+    obtain ⟨new2, hr2, ht2, hp2⟩ := key2
     have hres : s' = (if (List.map (fun h => ({ hdr := h, text := [] } : Segment)) s.outgoing.oneshot ++
-          List.map (·.segment) (List.filter (·.needsTransmit) s1.outgoing.retransmit)).isEmpty then
-          { s1 with outgoing.retransmit := s1.outgoing.retransmit.map fun t => { t with needsTransmit := false } }
-        else { s1 with outgoing.retransmit := s1.outgoing.retransmit.map fun t => { t with needsTransmit := false },
+          List.map (·.segment) (List.filter (·.needsTransmit) s2.outgoing.retransmit)).isEmpty then
+          { s2 with outgoing.retransmit := s2.outgoing.retransmit.map fun t => { t with needsTransmit := false } }
+        else { s2 with outgoing.retransmit := s2.outgoing.retransmit.map fun t => { t with needsTransmit := false },
                        timeouts.retransmission := RTO }) ∧
         out = List.map (fun h => ({ hdr := h, text := [] } : Segment)) s.outgoing.oneshot ++
-          List.map (·.segment) (List.filter (·.needsTransmit) s1.outgoing.retransmit) := by
+          List.map (·.segment) (List.filter (·.needsTransmit) s2.outgoing.retransmit) := by
       simp only [Except.ok.injEq, Prod.mk.injEq] at e
       exact ⟨e.1.symm, e.2.symm⟩
     obtain ⟨hs', hout⟩ := hres
     constructor
     · -- flags and timer only
-      have flag : SndPres s1 s' := by
+      have flag : SndPres s2 s' := by
         rw [hs']
         split
         all_goals
           exact fun hst => ⟨hst, fun hi =>
             ⟨chain_map_flag _ _ _ hi.chain, by simp only; rw [rtxBytes_map_flag]; exact hi.bytes,
               by unfold synPending; simp only; rw [rtxBytes_map_flag]; exact hi.cover⟩⟩
-      exact hp1.trans flag
+      exact (hp1.trans hp2).trans flag
     · intro seg hseg
       rw [hout] at hseg
       rcases List.mem_append.1 hseg with h | h
@@ -698,10 +784,12 @@ theorem segments_window (s : Tcb) (hok : SndOk s) (s' : Tcb) (out : List Segment
         exact Or.inl rfl
       · obtain ⟨t, ht, rfl⟩ := List.mem_map.1 h
         have ht' := (List.mem_filter.1 ht).1
-        rw [hr] at ht'
+        rw [hr2, hr] at ht'
         rcases List.mem_append.1 ht' with h | h
-        · exact Or.inr (Or.inl ⟨t, h, rfl⟩)
-        · exact Or.inr (Or.inr (hw t h))
+        · rcases List.mem_append.1 h with h | h
+          · exact Or.inr (Or.inl ⟨t, h, rfl⟩)
+          · exact Or.inr (Or.inr (hw t h))
+        · exact Or.inl (ht2 t h)
 
 theorem advanceTime_pres (s : Tcb) (dt : Nat) (s' : Tcb) (r : AdvanceTimeResult)
     (e : s.advanceTime dt = .ok (s', r)) : SndPres s s' := by
@@ -729,22 +817,53 @@ theorem advanceTime_pres (s : Tcb) (dt : Nat) (s' : Tcb) (r : AdvanceTimeResult)
 
 theorem send_pres (s : Tcb) (m : List UInt8) : SndPres s (s.send m) := by
   unfold send
-  split <;> exact sndPres_congr id rfl rfl rfl rfl
+  split
+  · rename_i hs
+    exact fun _ => ⟨seg_of_synSent hs, fun hi => hi.congr rfl rfl rfl rfl⟩
+  · rename_i hs
+    exact fun _ => ⟨seg_of_synReceived hs, fun hi => hi.congr rfl rfl rfl rfl⟩
+  · rename_i hs
+    exact fun _ => ⟨seg_of_established hs, fun hi => hi.congr rfl rfl rfl rfl⟩
+  · exact SndPres.refl _
 
 theorem receive_pres (s : Tcb) : SndPres s s.receive.1 := by
   unfold receive
   split <;> exact sndPres_congr id rfl rfl rfl rfl
 
-/-- `close` queues the FIN and leaves the segmentizing states for good -/
+/-- `close` changes the state at once (from a segmentizing state) and forms the FIN when no text
+    is queued — after which the endpoint never segmentizes again —, otherwise leaves that to
+    `segments()`: the invariant carries over -/
 theorem close_pres (s : Tcb) (s' : Tcb) (r : CloseResult) (e : s.close = .ok (s', r)) : SndPres s s' := by
   unfold close at e
   split at e
-  all_goals first
-    | (cases e; exact SndPres.refl _)
-    | (rw [enqueue_eq] at e
-       dsimp only at e
-       cases e
-       exact fun h => by simp [segmentizing] at h)
+  · rename_i hs
+    cases h1 : ({ s with state := .FinWait1 } : Tcb).queueFin with
+    | error err => rw [h1] at e; simp at e
+    | ok t =>
+      rw [h1] at e
+      cases e
+      have p0 : SndPres s { s with state := .FinWait1 } :=
+        fun _ => ⟨seg_of_synReceived hs, fun hi => hi.congr rfl rfl rfl rfl⟩
+      exact p0.trans (queueFin_pres _ _ (Or.inl rfl) h1).1
+  · rename_i hs
+    cases h1 : ({ s with state := .FinWait1 } : Tcb).queueFin with
+    | error err => rw [h1] at e; simp at e
+    | ok t =>
+      rw [h1] at e
+      cases e
+      have p0 : SndPres s { s with state := .FinWait1 } :=
+        fun _ => ⟨seg_of_established hs, fun hi => hi.congr rfl rfl rfl rfl⟩
+      exact p0.trans (queueFin_pres _ _ (Or.inl rfl) h1).1
+  · rename_i hs
+    cases h1 : ({ s with state := .LastAck } : Tcb).queueFin with
+    | error err => rw [h1] at e; simp at e
+    | ok t =>
+      rw [h1] at e
+      cases e
+      have p0 : SndPres s { s with state := .LastAck } :=
+        fun _ => ⟨seg_of_closeWait hs, fun hi => hi.congr rfl rfl rfl rfl⟩
+      exact p0.trans (queueFin_pres _ _ (Or.inr (Or.inr rfl)) h1).1
+  · cases e; exact SndPres.refl _
 
 theorem sndInv_with_heap (t : Tcb) (heap : List Segment) (h : SndInv t) :
     SndInv { t with incoming.segments := heap } := h.congr rfl rfl rfl rfl
